@@ -38,7 +38,7 @@ P.update({
  'C14': dict(level='other', ref='DESIGN.md section 3 C14',
    text='TaggedSeries.encode and WhisperDatabase.getFilesystemPath (real class body, stub whisper module) decided for every metric string of length <= 4 (quick) / 5 (thorough) over the full alphabet, both TAG_HASH_FILENAMES values, 4 data directories: relative path never absolute and free of "." (no "."/".." segment), deterministic; injectivity for all pairs of well-formed untagged names up to length 3 plus a table of look-alike spellings. Lexical confinement only (whisper/ceres absent).'),
  'C18': dict(level='other', ref='DESIGN.md section 3 C18',
-   text='Idempotence, tag-rule conformance and stored/relayed-as-received for every string of length <= 4 (quick) / 6 (thorough) over the full alphabet through the real parser (shadow without message formatting) and the real CacheFeedingProcessor/RelayProcessor; order- and syntax-independence over tables of components incl. empty and reserved-character ones with symbolic indices (the OpenMetrics regex on long symbolic strings is out of reach). One known finding (mixed syntax).'),
+   text='Idempotence, tag-rule conformance and stored/relayed-as-received for every string of length <= 4 (quick) / 5 (thorough) over the full alphabet through the real parser (shadow without message formatting) and the real CacheFeedingProcessor/RelayProcessor; order- and syntax-independence over tables of components incl. empty and reserved-character ones with symbolic indices (the OpenMetrics regex on long symbolic strings is out of reach). One known finding (mixed syntax).'),
 })
 P.update({
  'C03': dict(level='other', ref='DESIGN.md section 3 C03',
